@@ -467,6 +467,7 @@ func (staticEngine) Run(ops []string) (ans []string, oracle []string) {
 				if hx(rq.URL.Path) != f[2] || hx(rq.URL.RawPath) != f[3] || hx(rq.URL.EscapedPath()) != f[4] {
 					return "harness: op line disagrees with net/http's parse of the target"
 				}
+				rq.Header.Set("Accept-Encoding", "gzip, deflate, br") // what every browser sends; the static handlers do not compress
 				reqPath := rq.URL.Path
 				if cfg.enc {
 					reqPath = rq.URL.EscapedPath()
